@@ -137,6 +137,36 @@ def rule_discard(ctx):
     B.check_discard(ctx, "C02.DISCARD")
 
 
+def rule_truthy(ctx):
+    """Buffer.process decides 'was a message parsed?' by the truthiness of what the scan returned.  That is only right if
+    every protocol message object is truthy: a message class (or a base) that defines __bool__ or __len__ - say, 'a vector is
+    a sized container of its parts' - makes some well-formed messages (a vector without children) falsy, and the buffer
+    silently discards them."""
+    from .common import concrete_message_classes, msg_base
+    p = ctx.p
+    f, paths = B.explore_process(ctx)
+    tested = False
+    for pa in paths:
+        for e in pa.assumes():
+            c = e.data["cond"]
+            if isinstance(c, Term) and B.parsed_prefix(c) is not None:
+                tested = True  # 'if message:' / 'if not message:' on the parsed message itself
+    base = msg_base(p)
+    bad = []
+    for ci in concrete_message_classes(p):
+        for k in ci.mro:
+            if k.module.name.startswith("indi.") and any(d in k.methods for d in ("__bool__", "__len__")):
+                bad.append((ci, k))
+                break
+    if bad and tested:
+        ci, k = bad[0]
+        ctx.violated("C02.TRUTHY", ci.short, f"{k.name} defines {'__bool__' if '__bool__' in k.methods else '__len__'}: a well-formed <{ci.name[0].lower() + ci.name[1:]}> can be falsy, and Buffer.process (which tests the parsed message for truthiness) then discards it instead of delivering it ({len(bad)} message classes affected)", ci=k, text=f"falsy-message:{k.name}", witness=f"{ci.name} without children")
+    elif bad:
+        ctx.holds("C02.TRUTHY", base.short, "some message classes define __bool__/__len__, but the buffer does not test parsed messages for truthiness", ci=base)
+    else:
+        ctx.holds("C02.TRUTHY", base.short, f"no message class defines __bool__/__len__: every parsed message is truthy (the buffer's 'message found' test {'relies on it' if tested else 'does not even rely on it'})", ci=base)
+
+
 def rule_tags(ctx):
     B.check_tags(ctx, "C02.TAGS")
 
@@ -154,6 +184,7 @@ RULES = [
     ("C02.APPEND", rule_append, "append / data setter / getter / length are exact"),
     ("C02.CONSUME", rule_consume, "exact-prefix consumption, once, before the consumer"),
     ("C02.DISCARD", rule_discard, "provenance of every other truncation (earliest tag / last '<' / empty / one char under threshold guard)"),
+    ("C02.TRUTHY", rule_truthy, "every message object is truthy (the buffer tests the parsed message for truthiness)"),
     ("C02.TAGS", rule_tags, "known tags computed from the parser's registry"),
     ("C02.AUX", rule_aux, "no cached scan state, or it is re-initialised after every truncation of the buffer on every path"),
 ]
